@@ -483,6 +483,20 @@ pub fn c11(c: &Case) {
         let stack = &k.kinematics;
         for q in SEEDS.iter() {
             tried += 1;
+            // an obstacle exactly where link 4 sits in the FIRST answer of the stack: that answer collides, later ones mostly do not
+            {
+                let pose0 = stack.forward(q); let all0 = stack.inverse_continuing(&pose0, q);
+                for pick in 0..all0.len().min(3) {
+                    let lp = stack.forward_with_joint_poses(&all0[pick])[3];
+                    let env2 = vec![CollisionBody { mesh: cube(0.07), pose: nalgebra::Isometry3::translation(lp.translation.x as f32, lp.translation.y as f32, lp.translation.z as f32) }];
+                    let k2 = KinematicsWithShape::new(p, cons, [mk_mesh(0.02), mk_mesh(0.02), mk_mesh(0.02), mk_mesh(0.05), mk_mesh(0.02), mk_mesh(0.02)], mk_mesh(0.02), base_t, mk_mesh(0.01), tool_t, env2, true);
+                    for (name, got, all) in [("inverse", k2.inverse(&pose0), stack.inverse(&pose0)), ("inverse_continuing", k2.inverse_continuing(&pose0, q), stack.inverse_continuing(&pose0, q)),
+                                             ("inverse_5dof", k2.inverse_5dof(&pose0, 0.3), stack.inverse_5dof(&pose0, 0.3)), ("inverse_continuing_5dof", k2.inverse_continuing_5dof(&pose0, q), stack.inverse_continuing_5dof(&pose0, q))] {
+                        let want: Solutions = all.into_iter().filter(|s| !k2.collides(s)).collect();
+                        if got != want { bad.push(format!("{}: returned {} answers, the non-colliding answers of the stack are {} (order-sensitive comparison, obstacle on link 4 of answer {})", name, got.len(), want.len(), pick)); }
+                    }
+                }
+            }
             let pose = stack.forward(q);
             if iso_diff(&iso_of(&k.forward(q)), &iso_of(&pose)).0 > 1e-12 { bad.push("forward differs from the underlying stack".into()); }
             let runs: Vec<(&str, Solutions, Solutions)> = vec![
